@@ -219,6 +219,24 @@ class Mismatch(Exception):
     pass
 
 
+def same_effects(a, b):
+    """Two effect lists are the same up to the order of *independent* effects: writes to the composed text and assignments of the pending sign
+    touch different state, so only their relative order within each kind matters; a re-dispatch / helper call touches both and is a barrier."""
+    def canon(effs):
+        segs, cur_t, cur_p = [], [], []
+        for e in effs:
+            if e[0] in ("recurse", "call"):
+                segs.append((tuple(cur_t), tuple(cur_p), e))
+                cur_t, cur_p = [], []
+            elif e[0] == "pending":
+                cur_p.append(e)
+            else:
+                cur_t.append(e)
+        segs.append((tuple(cur_t), tuple(cur_p), None))
+        return segs
+    return canon(a) == canon(b)
+
+
 def run(ctx):
     prog, chk = ctx.prog, ctx.check
     chk.explanation = (
@@ -275,7 +293,7 @@ def run(ctx):
         effects = [("call", "<reph>") if (e[0] == "call" and e[1] == reph_fn) else e for e in s.effects]
         try:
             want = expected_effects(v)
-            verdict = None if want == effects else ("effects", want)
+            verdict = None if same_effects(want, effects) else ("effects", want)
         except Undecided as e:
             verdict = ("undecided", str(e))
         except Mismatch as e:
@@ -393,7 +411,7 @@ def _signature(s):
         elif a[0] == "value_is":
             if v:
                 parts.append("value=" + {"্য": "zofola", "র্": "reph"}.get(a[1], a[1]))
-        elif a[0] in ("char_eq", "rmc_eq", "second_last_eq"):
+        elif a[0] in ("char_eq", "rmc_eq", "second_last_eq", "third_last_eq"):
             parts.append("%s%sU+%04X" % (a[0].split("_eq")[0], "=" if v else "≠", ord(a[1]) if isinstance(a[1], str) else a[1]))
         elif a[0] in ("char_switch", "rmc_switch", "popped_switch", "value_last_switch"):
             parts.append("%s=%s" % (a[0].split("_")[0], "other" if v == "otherwise" else "|".join("U+%04X" % c for c in v)))
